@@ -143,6 +143,13 @@ type Result struct {
 func (e *Env) result() *Result {
 	h := sha256.New()
 	for _, l := range e.trace {
+		if strings.HasPrefix(l, "!! VIOLATION ") {
+			// the message may quote engine output whose order the engine does not
+			// fix (map iteration); oracle, class and step identify the violation
+			if i := strings.Index(l, ": "); i > 0 {
+				l = l[:i]
+			}
+		}
 		h.Write([]byte(l))
 		h.Write([]byte{'\n'})
 	}
